@@ -121,8 +121,74 @@ def colErrors (conv : Conv) (to : To) (t : Convert.Tbl) (far : Nat) : List Strin
   | .positional xs => if xs.length ≠ t.cols.length then [] else go (fun j _ => (xs[j]?).join)
   | .each tgt => go tgt
 
+/-
+  op "bulk_convert": {"api": "gen" | "bundle", "blocks": [{"is_table": bool, "table": T|null, "tok": str, "log": LOG}],
+                      "disp": {"kind": "none"} | {"kind": "dict"|"fn", "m": [[table name, TO|null]]} | {"kind": "other", "truthy": bool},
+                      "has_conv": bool, "dflt": LOG|null}
+    `log` of block i = the calls the converter received while the generator worked on block i.
+  Answer: {"out": [{"is_table", "table", "tok"}], "exc": cls|null}
+-/
+def tdispPairs (j : Json) : Except String (List (Str × Option To)) := do
+  (← getArr j "m").mapM (fun p => do
+    let a ← p.getArr?
+    match a.toList with
+    | [kk, v] => do
+      let ks ← kk.getStr?
+      match v with
+      | .null => pure (ks.toList, none)
+      | _ => do pure (ks.toList, some (← toOfJson v))
+    | _ => throw "bad pair")
+
+def tdispOfJson (j : Json) : Except String TDisp := do
+  let kind ← (← j.getObjVal? "kind").getStr?
+  match kind with
+  | "none" => pure .none
+  | "dict" => do pure (.dict (← tdispPairs j))
+  | "fn" => do
+    let m ← tdispPairs j
+    pure (.fn (fun name => match m.find? (fun p => p.1 = name) with
+      | some p => p.2
+      | none => some .other))          -- a name the harness did not tabulate: surfaces as a TypeError mismatch
+  | "other" => do pure (.other (← (← j.getObjVal? "truthy").getBool?))
+  | _ => throw s!"unknown table dispatcher kind {kind}"
+
+def gblkOfJson (j : Json) : Except String (GBlk × List LogEntry) := do
+  let isT ← (← j.getObjVal? "is_table").getBool?
+  let tbl ← match j.getObjVal? "table" with
+    | .ok .null => pure none
+    | .ok v => do pure (some (← cvTblOfJson v))
+    | .error _ => pure none
+  let log ← match j.getObjVal? "log" with
+    | .ok (.arr a) => a.toList.mapM logEntryOfJson
+    | _ => pure []
+  pure (⟨isT, tbl, ← getStr j "tok"⟩, log)
+
+def gblkToJson (b : GBlk) : Json :=
+  Json.mkObj [("is_table", Json.bool b.isTable), ("tok", str b.tok),
+    ("table", match b.tbl with | some t => cvTblToJson t | none => Json.null)]
+
 def handleConvert (op : String) (j : Json) : Option (Except String Json) :=
   match op with
+  | "bulk_convert" => some do
+    let api ← (← j.getObjVal? "api").getStr?
+    let bl ← (← getArr j "blocks").mapM gblkOfJson
+    let d ← tdispOfJson (← j.getObjVal? "disp")
+    let hasConv ← (← j.getObjVal? "has_conv").getBool?
+    let dflt ← convOfJson (← j.getObjVal? "dflt")
+    let logs := bl.map (·.2)
+    let converter : Option (Nat → Conv) :=
+      if hasConv then some (fun i => convOfLog ((logs[i]?).getD [])) else none
+    let bs := bl.map (·.1)
+    match api with
+    | "gen" =>
+      let (out, e) := normGen positionalAssign d converter dflt bs
+      pure (Json.mkObj [("out", arr (out.map gblkToJson)),
+        ("exc", match e with | some e => Json.str (errClass e) | none => Json.null)])
+    | "bundle" =>
+      match readBundle positionalAssign d converter dflt bs with
+      | .ok out => pure (Json.mkObj [("out", arr (out.map gblkToJson)), ("exc", Json.null)])
+      | .error e => pure (Json.mkObj [("out", Json.null), ("exc", Json.str (errClass e))])
+    | _ => throw s!"unknown api {api}"
   | "convert_units" => some do
     let t ← cvTblOfJson (← j.getObjVal? "table")
     let to ← toOfJson (← j.getObjVal? "to")
